@@ -327,6 +327,20 @@ func c37Divisions(c *Ctx, fns []*ssa.Function, reach map[*ssa.Function]string) {
 
 	c37TypeAsserts(c, fns, reach)
 	c37MustCalls(c, fns, reach)
+	if os.Getenv("C37SUB_DEBUG") != "" {
+		// exploration aid, not a rule: unsigned subtractions in consensus code without a dominating bound
+		for _, f := range c.P.AllFuncs {
+			if !inProd(f) || !consensusScope(f) || f.Blocks == nil {
+				continue
+			}
+			for _, s := range UnsignedSubs(f) {
+				if ok, _ := leProved(s.X, s.Y, s.Block(), 3); ok || onlyLogged(s) {
+					continue
+				}
+				c.Note("C37x/sub/"+ir.FuncName(f)+"/"+trunc(ir.DescN(s.X, 3)+" - "+ir.DescN(s.Y, 3), 120), c.P.InstrPos(s), "unproved unsigned subtraction")
+			}
+		}
+	}
 
 	c.Rule("C37d the audited belief about the downtime EpochDuration parameter is enforced where parameters are set: validateDowntimeDuration returns nil only past the false outcome of `value <= 0`, and both parameters of the downtime module are registered with it")
 	if v := c.Fn("x/downtime/v1.validateDowntimeDuration"); v != nil {
